@@ -2,7 +2,8 @@
 
 Every value is abstracted by
     obj      set of (root, level): what the denoted object itself may be
-    content  set of roots:         where the (non-fresh) objects reachable *inside* it may come from
+    content  K sets of roots:      content[i] = where the (non-fresh) objects stored at depth i+1 *inside* it may come from
+                                   (a dict of lists of modules keeps its three layers apart; the last level absorbs deeper ones)
 with
     root   FRESH                      created during the current call of the function under analysis (or of a callee on its behalf)
            ("self", owner_fq)         the receiver of the method `owner`
@@ -153,9 +154,11 @@ def elem(v: Value) -> Value:
 
 
 def own(v: Value) -> Value:
+    """Objects owned by (created by and only stored inside) the objects `v` stands for."""
     obj = set()
     for r, l in v.obj:
-        obj.add((r, 0) if r == FRESH else (r, 1) if l == 0 else (r, l))
+        # an owned part of something that merely lies inside r lies deeper inside r, at a depth that is not known
+        obj.add((r, 0) if r == FRESH else (r, 1) if l in (0, 1) else (r, ANY))
     return Value(frozenset(obj), v.content)
 
 
@@ -790,7 +793,10 @@ class Roots:
                     lv[i] = frozenset({r})
                     parts.append(tuple(lv))
                 else:
-                    parts.append(shifted(a, i + 1))
+                    # "an object of / inside the parameter at depth i+1": the depth inside the argument is not known
+                    lv = [frozenset()] * K
+                    lv[i] = a.roots
+                    parts.append(tuple(lv))
         return Value(frozenset(obj), join_content(parts))
 
     def _bound(self, r: Root, callee: FuncInfo, binding: dict[str, Value]) -> Value | None:
@@ -1038,11 +1044,9 @@ class Roots:
             elif isinstance(n, ast.Call) and isinstance(n.func, ast.Name) and n.func.id in ("setattr", "delattr") and n.args:
                 out.append(Write(f, n, n.args[0], "setattr", n.func.id, "set" if n.func.id == "setattr" else "shrink", path_of(n.args[0], "?")))
             elif isinstance(n, ast.Call) and isinstance(n.func, ast.Attribute) and n.func.attr in ("__setattr__", "__setitem__", "__delitem__", "__delattr__") and n.args:
-                # object.__setattr__(self, name, value)
-                explicit = (isinstance(n.func.value, ast.Name) and n.func.value.id == "object") or (isinstance(n.func.value, ast.Call) and isinstance(n.func.value.func, ast.Name) and n.func.value.func.id == "super")
+                # object.__setattr__(obj, name, value) writes to its first argument, x.__setitem__(k, v) / super().__setattr__(..) to the receiver
                 tgt = n.args[0] if isinstance(n.func.value, ast.Name) and n.func.value.id == "object" else n.func.value
-                if explicit or True:
-                    out.append(Write(f, n, tgt, "setattr", n.func.attr, "set", path_of(tgt, "?")))
+                out.append(Write(f, n, tgt, "setattr", n.func.attr, "set", path_of(tgt, "?")))
         return out
 
     def targets(self, w: Write) -> frozenset:
